@@ -242,8 +242,8 @@ func judge(r *Run, id int, what string, res mutRes, inputLen int, zw bool, desc 
 
 func runC06(r *Run) {
 	// (a) record bodies: decode and skip paths of built codecs
-	nbase := r.N(40, 700)
-	per := r.N(70, 300)
+	nbase := r.N(40, 300)
+	per := r.N(70, 200)
 	for i := 0; i < nbase; i++ {
 		s := genSchema(r.Rng, SchemaGenCfg{MaxDepth: 1 + r.Rng.Intn(3)})
 		d := genDatum(r.Rng, s)
@@ -254,6 +254,11 @@ func runC06(r *Run) {
 		}
 		zw := hasZeroWidthItems(s)
 		ms := mutants(r, enc, per)
+		if zw && len(ms) > 12 {
+			// zero-width items are a recorded finding (count-driven loops): a handful of
+			// mutants is enough to show it, every one that hits it costs a full deadline
+			ms = ms[:12]
+		}
 		for _, mode := range []string{"read", "skip"} {
 			tg := g
 			if mode == "skip" {
@@ -285,6 +290,9 @@ func runC06(r *Run) {
 		gf := genFile(r, 4)
 		zw := hasZeroWidthItems(gf.s)
 		ms := mutants(r, gf.file, r.N(120, 600))
+		if zw && len(ms) > 12 {
+			ms = ms[:12]
+		}
 		// damaged length fields of blocks and metadata explicitly
 		for _, hv := range hostileVarints {
 			m := append(append(append([]byte{}, gf.file[:gf.ct.HeaderLen]...), hv...), gf.file[gf.ct.HeaderLen:]...)
